@@ -425,6 +425,49 @@ func c05Matrix(r *vReport, idx *int64) {
 	}
 }
 
+// (c2) a job sees only its own matrix: jobs with and without a matrix side by side, both orders
+func c05MatrixAcrossJobs(r *vReport, idx *int64) {
+	definers := map[string]string{
+		"step-job-matrix":     "  definer:\n    runs-on: ubuntu-latest\n    strategy:\n      matrix:\n        ka: [1]\n        kb: [2]\n    steps:\n      - run: echo ${{ matrix.ka }}\n",
+		"call-job-matrix":     "  definer:\n    strategy:\n      matrix:\n        ka: [1]\n        kb: [2]\n    uses: owner/repo/.github/workflows/w.yml@v1\n    with:\n      x: ${{ matrix.ka }}\n",
+		"call-job-include":    "  definer:\n    strategy:\n      matrix:\n        include:\n          - ka: 1\n    uses: owner/repo/.github/workflows/w.yml@v1\n",
+		"expression-matrix":   "  definer:\n    runs-on: ubuntu-latest\n    strategy:\n      matrix: ${{ fromJSON(vars.M) }}\n    steps:\n      - run: echo ${{ matrix.anything }}\n",
+		"call-job-expression": "  definer:\n    strategy:\n      matrix: ${{ fromJSON(vars.M) }}\n    uses: owner/repo/.github/workflows/w.yml@v1\n",
+	}
+	users := map[string]string{
+		"step-job-no-matrix":   "  user:\n    runs-on: ubuntu-latest\n    steps:\n      - run: echo ${{ matrix.KA }}\n",
+		"call-job-no-matrix":   "  user:\n    uses: owner/repo/.github/workflows/w.yml@v1\n    with:\n      x: ${{ matrix.KA }}\n",
+		"own-matrix-other-key": "  user:\n    runs-on: ubuntu-latest\n    strategy:\n      matrix:\n        kc: [1]\n    steps:\n      - run: echo ${{ matrix.KA }}\n",
+	}
+	for _, dn := range vSortedKeys(definers) {
+		for _, un := range vSortedKeys(users) {
+			for order := 0; order < 2; order++ {
+				*idx++
+				if !r.Mine(*idx) {
+					continue
+				}
+				src := "on: push\njobs:\n"
+				var refLine int
+				find := func(s string) int {
+					for i, l := range strings.Split(s, "\n") {
+						if strings.Contains(l, "matrix.KA") {
+							return i + 1
+						}
+					}
+					return 0
+				}
+				if order == 0 {
+					src += definers[dn] + users[un]
+				} else {
+					src += users[un] + definers[dn]
+				}
+				refLine = find(src)
+				c05Judge(r, "matrix-across-jobs", fmt.Sprintf("%s then/before %s order=%d", dn, un, order), src, []c05Ref{{refLine, "ka", false, "job-without-that-key"}}, nil)
+			}
+		}
+	}
+}
+
 // ---------------------------------------------------------------------------------------------
 // (d) inputs and secrets, (e) jobs.<job>.outputs in workflow_call outputs
 
@@ -534,7 +577,7 @@ func TestVerifC05(t *testing.T) {
 	r.Bounds["steps_per_job"] = maxSteps
 	r.Bounds["jobs_steps_family"] = 2
 	r.Bounds["jobs_needs_family"] = 3
-	r.Extra["rule"] = "steps: jobs<=2 x steps<=N x every subset of steps carrying an id x reference in 8 step fields of every step and in job outputs / environment.url x target (each id of either job | undefined); needs: 3 jobs x all 64 edge sets x all 6 file orders x needed job is a step job or a reusable-workflow call, reference to .result and to declared / undeclared outputs from every job; matrix: 10 definitions (rows, include same/new/only, exclude, nested values, row / include / include element / whole matrix by expression) x 7 positions x defined/undefined keys; inputs/secrets/jobs: call x dispatch x declared secrets. oracle = scope rule computed by the generator. class = (family, reference kind, in scope?); non-trivial = out of scope"
+	r.Extra["rule"] = "steps: jobs<=2 x steps<=N x every subset of steps carrying an id x reference in 8 step fields of every step and in job outputs / environment.url x target (each id of either job | undefined); needs: 3 jobs x all 64 edge sets x all 6 file orders x needed job is a step job or a reusable-workflow call, reference to .result and to declared / undeclared outputs from every job; matrix: 10 definitions (rows, include same/new/only, exclude, nested values, row / include / include element / whole matrix by expression) x 7 positions x defined/undefined keys; jobs with a matrix (literal / include-only / expression, step job or reusable-workflow call) next to jobs without that key in both file orders; inputs/secrets/jobs: call x dispatch x declared secrets. oracle = scope rule computed by the generator. class = (family, reference kind, in scope?); non-trivial = out of scope"
 	r.Extra["assumptions"] = []string{"step ids, job ids and keys are referenced in a different letter case than defined (case-insensitivity is part of resolution)", "for cyclic needs graphs only the needs.* verdicts are compared"}
 	if raw := vReplayInput(); raw != nil {
 		var rp struct {
@@ -553,5 +596,6 @@ func TestVerifC05(t *testing.T) {
 	c05Steps(r, &idx, maxSteps)
 	c05Needs(r, &idx)
 	c05Matrix(r, &idx)
+	c05MatrixAcrossJobs(r, &idx)
 	c05InputsSecrets(r, &idx)
 }
